@@ -177,33 +177,106 @@ def r053(model, rep, ck):
         raise AnalysisError('anchor vanished: Arm.thetaProtector')
     th = tp.params[1]
     stores = [n for n in walk_own(tp.node) if isinstance(n, ast.Assign) and isinstance(n.targets[0], ast.Subscript) and src(n.targets[0].value) == th]
+    FLIP = {ast.Lt: ast.Gt, ast.LtE: ast.GtE, ast.Gt: ast.Lt, ast.GtE: ast.LtE}
+    BOUNDS = {'self.joint_mins': 'below', 'self.joint_maxs': 'above'}
+
+    def unsl(e):
+        while isinstance(e, ast.Subscript) and isinstance(e.slice, ast.Slice):
+            e = e.value
+        return src(e)
+
+    def cond(e):
+        """(side, bound field) of an out-of-range test `theta < mins` / `maxs < theta` ...; None when not of that shape."""
+        if isinstance(e, ast.Call) and src(e.func) in ('np.where', 'np.nonzero', 'np.flatnonzero') and len(e.args) == 1:
+            e = e.args[0]
+        if not (isinstance(e, ast.Compare) and len(e.ops) == 1 and type(e.ops[0]) in FLIP):
+            return None
+        l, r, op = unsl(e.left), unsl(e.comparators[0]), type(e.ops[0])
+        if r == th and l in BOUNDS:
+            l, r, op = r, l, FLIP[op]
+        if l != th or r not in BOUNDS:
+            return None
+        return ('below' if op in (ast.Lt, ast.LtE) else 'above', r)
+
     seen_bounds = set()
     for n in stores:
-        tsel = src(n.targets[0].slice).replace(' ', '')
         v = n.value
-        ok = False
-        which = None
-        if isinstance(v, ast.Subscript):
-            vsel = src(v.slice).replace(' ', '')
-            bound = src(v.value)
-            for op, fld in (('<', 'self.joint_mins'), ('>', 'self.joint_maxs')):
-                cond = 'np.where(%s%s%s[0:theta_len])' % (th, op, fld)
-                if tsel == cond:
-                    which = fld
-                    ok = vsel == cond and bound == fld
-        if which:
-            seen_bounds.add(which)
-        rep.ob('R05.3', tp, src(n)[:90], ok, 'clamp statement does not replace exactly the out-of-range joints by the bound they violate', line=n.lineno)
+        c1 = cond(n.targets[0].slice)
+        c2 = cond(v.slice) if isinstance(v, ast.Subscript) else None
+        if c1 is None or c2 is None:
+            rep.unresolved_item('R05.3', '%s:%d' % (tp.module.relpath, n.lineno), 'clamp statement not of the form theta[out-of-range] = bound[out-of-range]: %s' % src(n)[:80])
+            continue
+        ok = c1 == c2 and BOUNDS[c1[1]] == c1[0] and unsl(v.value) == c1[1]
+        if ok:
+            seen_bounds.add(c1[1])
+        rep.ob('R05.3', tp, src(n)[:90], ok, 'joints %s %s are replaced by elements of %s selected where theta is %s %s: the clamp must replace exactly the '
+               'out-of-range joints by the bound they violate' % (c1[0], c1[1], unsl(v.value) if isinstance(v, ast.Subscript) else src(v)[:30], c2[0], c2[1]), line=n.lineno)
+        # a guard around the clamp may only skip it when nothing is out of range
+        par = tp.module.parents.get(n)
+        if isinstance(par, ast.If) and n in par.body:
+            t = par.test
+            if isinstance(t, ast.BoolOp):
+                parts = [cond(x.args[0]) if isinstance(x, ast.Call) and src(x.func) in ('np.any', 'any') and len(x.args) == 1 else None for x in t.values]
+                if None in parts:
+                    rep.unresolved_item('R05.3', '%s:%d' % (tp.module.relpath, par.lineno), 'guard of the clamp not recognised')
+                else:
+                    okg = isinstance(t.op, ast.Or) and c1 in parts
+                    rep.ob('R05.3', tp, 'guard admits the clamp of %s' % c1[1], okg,
+                           'the clamp of %s runs only when `%s` holds, which is false for a vector that violates only this limit' % (c1[1], src(t)[:100]), line=par.lineno)
+            else:
+                one = cond(t.args[0]) if isinstance(t, ast.Call) and src(t.func) in ('np.any', 'any') and len(t.args) == 1 else None
+                if one is None:
+                    rep.unresolved_item('R05.3', '%s:%d' % (tp.module.relpath, par.lineno), 'guard of the clamp not recognised')
+                else:
+                    rep.ob('R05.3', tp, 'guard admits the clamp of %s' % c1[1], one == c1, 'the clamp of %s is guarded by a test of %s' % (c1[1], one[1]), line=par.lineno)
     rets = [n for n in walk_own(tp.node) if isinstance(n, ast.Return)]
-    rep.ob('R05.3', tp, 'both limits clamped, clamped vector returned', seen_bounds == {'self.joint_mins', 'self.joint_maxs'} and len(rets) == 1 and src(rets[0].value) == th,
-           'clamp covers %s and returns %s' % (sorted(seen_bounds), src(rets[0].value) if rets else '?'))
+    clip = [c for c in walk_own(tp.node) if isinstance(c, ast.Call) and src(c.func) in ('np.clip', 'numpy.clip') and len(c.args) == 3]
+    if clip and not stores:
+        c = clip[0]
+        ok = unsl(c.args[0]) == th and unsl(c.args[1]) == 'self.joint_mins' and unsl(c.args[2]) == 'self.joint_maxs'
+        rep.ob('R05.3', tp, src(c)[:90], ok, 'np.clip must clamp the joint vector between joint_mins and joint_maxs', line=c.lineno)
+    elif stores:
+        rep.ob('R05.3', tp, 'both limits clamped, clamped vector returned', seen_bounds == set(BOUNDS) and len(rets) == 1 and src(rets[0].value) == th,
+               'clamp covers %s and returns %s' % (sorted(seen_bounds), src(rets[0].value) if rets else '?'))
+    else:
+        rep.ob('R05.3', tp, 'both limits clamped, clamped vector returned', False, 'thetaProtector no longer clamps the joint vector')
     for name in ('FKJoint', 'FKLink'):
         fi = arm.methods.get(name)
         if fi is None:
             continue
+        defs = {}
+        for n in walk_own(fi.node):
+            if isinstance(n, ast.Assign) and len(n.targets) == 1 and isinstance(n.targets[0], ast.Name):
+                defs.setdefault(n.targets[0].id, []).append(n.value)
+
+        def sliced_from(e, depth=0):
+            """Text of the value `e` is a slice / copy of (through local names); None when it is computed otherwise."""
+            while True:
+                if isinstance(e, ast.Subscript):
+                    e = e.value
+                elif isinstance(e, ast.Call) and isinstance(e.func, ast.Attribute) and e.func.attr == 'copy' and not e.args:
+                    e = e.func.value
+                else:
+                    break
+            if isinstance(e, ast.Name) and e.id in defs and depth < 6:
+                b = {sliced_from(d, depth + 1) for d in defs[e.id] if not (isinstance(d, ast.Call) and src(d.func) == 'self.thetaProtector')}
+                if len(b) == 1:
+                    return b.pop()
+                return None if b else e.id
+            if isinstance(e, (ast.Name, ast.Attribute)):
+                return src(e)
+            return None
         for cc in [x for x in walk_own(fi.node) if isinstance(x, ast.Call) and isinstance(x.func, ast.Attribute) and x.func.attr == 'FKinSpace']:
-            ok = len(cc.args) == 3 and src(cc.args[1]).startswith('self.screw_list[') and src(cc.args[2]).startswith(fi.params[1] + '[')
-            rep.ob('R05.3', fi, src(cc)[:100], ok, 'link/joint FK must use prefix slices of the space screws and of theta', line=cc.lineno)
+            if len(cc.args) != 3:
+                rep.ob('R05.3', fi, src(cc)[:100], False, 'FKinSpace takes (home, screws, theta)', line=cc.lineno)
+                continue
+            b1, b2 = sliced_from(cc.args[1]), sliced_from(cc.args[2])
+            if b1 is None or b2 is None:
+                rep.unresolved_item('R05.3', '%s:%d' % (fi.module.relpath, cc.lineno), 'screw / joint arguments of %s are not slices of named values' % src(cc)[:80])
+                continue
+            ok = b1 == 'self.screw_list' and b2 == fi.params[1]
+            rep.ob('R05.3', fi, src(cc)[:100], ok, 'link/joint FK must use slices of the space screws (self.screw_list) and of the joint vector it was given; '
+                   'got slices of %s and %s' % (b1, b2), line=cc.lineno)
 
 
 def r054(model, rep, ck):
